@@ -593,6 +593,9 @@ func (e *Env) WaitGraph() string {
 	var sb strings.Builder
 	for _, v := range e.W.Snapshot() {
 		if v.Done {
+			if os.Getenv("VERIF_GRAPH_ALL") != "" {
+				fmt.Fprintf(&sb, "%s: done (last %s)\n", v.Name, v.LastSite)
+			}
 			continue
 		}
 		switch {
